@@ -322,6 +322,16 @@ def inspector_loglevel(level):
 
 def drive_wrapper(data, schedule, mode='read', expected=None, allowed=None,
                   sample=False, kind=None):
+    from vcheck import core
+    # selector strings reach the library as equal copies of the literals
+    expected = core.fresh(expected)
+    if allowed is not None:
+        allowed = [core.fresh(a) for a in allowed]
+    return _drive_wrapper(data, schedule, mode, expected, allowed, sample,
+                          kind)
+
+
+def _drive_wrapper(data, schedule, mode, expected, allowed, sample, kind):
     """Read `data` through InspectWrapper with the given read sizes.
 
     mode 'read': wrapper.read(size) for each schedule entry (an empty read
